@@ -36,27 +36,38 @@ func oracle(c *rig.StepCtx) (string, map[string]string) {
 	if c.Died != "" {
 		return "the " + c.Died + " health-check loop returned by itself", map[string]string{"kind": "health_check_loop_died"}
 	}
-	probe := "n/a"
-	if c.X.Round != "" {
-		probe = "failed"
-		if c.X.Pass {
-			probe = "passed"
-		}
-	}
-	gate := "n/a"
-	if c.X.Round == "R" {
-		gate = "open"
-		if !c.X.GateOpen {
-			gate = "closed"
-		}
-	}
 	if (c.After.MasterUp && !c.X.MasterMayUp) || (!c.After.MasterUp && !c.X.MasterMayDown) {
+		probe := "n/a"
+		if c.X.Round == "M" {
+			probe = "failed"
+			if c.X.MasterPass {
+				probe = "passed"
+			}
+		}
 		return fmt.Sprintf("master is %s after the event; expected by rule %q", tr(c.Before.MasterUp, c.After.MasterUp), c.X.MasterRule),
-			map[string]string{"node": "master", "kind": "status_not_allowed", "rule": c.X.MasterRule, "transition": tr(c.Before.MasterUp, c.After.MasterUp), "probe": probe, "gate": gate}
+			map[string]string{"node": "master", "kind": "status_not_allowed", "rule": c.X.MasterRule, "transition": tr(c.Before.MasterUp, c.After.MasterUp), "probe": probe, "gate": "n/a"}
 	}
-	if (c.After.ReplicaUp && !c.X.ReplicaMayUp) || (!c.After.ReplicaUp && !c.X.ReplicaMayDown) {
-		return fmt.Sprintf("replica is %s after the event; expected by rule %q", tr(c.Before.ReplicaUp, c.After.ReplicaUp), c.X.ReplicaRule),
-			map[string]string{"node": "replica", "kind": "status_not_allowed", "rule": c.X.ReplicaRule, "transition": tr(c.Before.ReplicaUp, c.After.ReplicaUp), "probe": probe, "gate": gate}
+	// every replica of the group on its own
+	for i, x := range c.X.Rep {
+		before, after := c.Before.ReplicaUp[i], c.After.ReplicaUp[i]
+		if (after && !x.MayUp) || (!after && !x.MayDown) {
+			probe, gate := "n/a", "n/a"
+			if c.X.Round == "R" {
+				probe, gate = "failed", "open"
+				if x.Pass {
+					probe = "passed"
+				}
+				if !x.GateOpen {
+					gate = "closed"
+				}
+			}
+			who := "replica"
+			if len(c.X.Rep) > 1 {
+				who = fmt.Sprintf("replica %d", i)
+			}
+			return fmt.Sprintf("%s is %s after the event; expected by rule %q", who, tr(before, after), x.Rule),
+				map[string]string{"node": "replica", "idx": fmt.Sprint(i), "kind": "status_not_allowed", "rule": x.Rule, "transition": tr(before, after), "probe": probe, "gate": gate}
+		}
 	}
 	return "", nil
 }
@@ -73,6 +84,12 @@ func main() {
 			cfgs = append(cfgs, rig.Cfg{Policy: "gradual", DownAfter: da, LagLimit: 10, W: 3, M: m, Start: start})
 		}
 	}
+	// two replicas in one slave group: every replica's status follows its own probe history,
+	// its own fuses and its own recovery gate
+	cfgs = append(cfgs,
+		rig.Cfg{Policy: "hard", DownAfter: 12, LagLimit: 0, W: 3, M: 1, Cooldown: 5, Start: start, Replicas: 2, Depth: 5},
+		rig.Cfg{Policy: "gradual", DownAfter: 12, LagLimit: 0, W: 3, M: 1, Start: start, Replicas: 2, Depth: 5},
+		rig.Cfg{Policy: "none", DownAfter: 6, LagLimit: 0, W: 3, M: 1, Start: start, Replicas: 2, Depth: 5})
 	rig.Main(&rig.Plan{ID: "C28", Level: "model_checking", Configs: cfgs, Depth: 6, FullDepth: 2, Oracle: oracle,
 		Assume: []string{"'passed a health probe' = Gaea's checkInstanceStatus succeeds: a check connection is obtained and the health SQL succeeds, or it fails with a non-fatal error and ping + `select 1` succeed"}})
 }
